@@ -56,6 +56,18 @@ FIRST_MISS = {
     ('C14', 'm8'): "consumers were test handlers; the library's own SOLHandler_Easy (NLSolver::ReadSolution for an NLModel of the declared size, permuted columns) is now a consumer party",
     ('C14', 'm9'): "harness: the change hangs on every text file cut inside a value; each hang cost the 6 s CPU budget and the quick check would have needed hours - the supervisor now stops dispatching once 24 hangs are on record (exit 1 after the gate)",
     ('C20', 'm9'): "records of defined variables (NL_COMMON_EXPR_index) were not demanded; every defined variable of the NL file must have one, referenced or not",
+    # ---- round 5 (m10, m11)
+    ('C05', 'm11'): "the reader party was the recording handler only; a second reader party, the library's own handler behind NLSolver::ReadSolution() for a model of mixed column classes, now reads the same file and must hand values and variable suffixes back in the caller's order (cycles of length >= 3 in the permutation are counted)",
+    ('C08', 'm11'): "the loop was driven step by step (LoadModel, Solve, ReadSolution) and the solver command never failed; added the one-call entry Solve(model, solver, options) / NLW2_SolveNLModel_C and a fault on the solver run (exit code, system() failure, killed) with the stub already used by an earlier solve: no result, no stale solution",
+    ('C09', 'm10'): "generated names were short; names as long string subscripts make them (40..5000 characters, equal up to the last few) and the same name on several items are now generated",
+    ('C09', 'm11'): "only whole driver runs were judged; the library flavour of a run - AMPLS C-API sessions with 1..4 rounds of solve + report to the standard or a named .sol - now runs over the generated models, options and faults",
+    ('C10', 'm10'): "the solver's result queries never failed; every code x a failing IIS finder / GetIIS / ray / basis / sensitivity query while results are collected (the code must stay)",
+    ('C10', 'm11'): "driver registrations never shared their first code with a documented class; single codes and sub-ranges that begin where a class begins are now registered, and every registered entry must be listed under the heading of its class",
+    ('C11', 'm11'): "unknown names were ASCII; a registered name with one foreign byte (non-ASCII, control) before, after or inside it is now generated",
+    ('C12', 'm10'): "every generated objective had content; AMPL's dummy objective and objectives whose G term and O expression cancel are now generated (still the k-th objective of the file)",
+    ('C15', 'm10'): "every scenario used a fresh application object; a second driver party built on mp::BasicBackend now serves 1..3 Run() calls of one application object, and the reference model counts handler objects",
+    ('C15', 'm11'): "a fault on the handler's write applied to one call only; faults can now persist over many occurrences (a full non-blocking pipe that nobody drains)",
+    ('C20', 'm10'): "the export always went into a fresh file; in 15 % of the scenarios the file now exists before the run (an earlier export, or a leftover without final newline)",
 }
 
 res = {}
